@@ -267,7 +267,8 @@ def exhaustive_histories():
 
 FIELDS = ['depends', 'Pre-Depends', 'BUILD-DEPENDS-INDEP', 'built-using', 'breaks', 'installed-size', 'description',
           'MD5SUM', 'checksums-sha256', 'x-sha1-y', 'package', 'Provides', 'suggests', 'files', 'maintainer', 'build-conflicts-arch', 'depend', 'depends-x',
-          'x-upstream-sha256sum', 'sha1sum', 'sha12', 'md5sums', 'xmd5sum', 'sha1-sha256', 'x-sha1x', 'checksums-sha512', 'sha256-md5sum', 'mD5sUM-x', 'sha', 'x--y', '-a', 'a-']
+          'x-upstream-sha256sum', 'sha1sum', 'sha12', 'md5sums', 'xmd5sum', 'sha1-sha256', 'x-sha1x', 'checksums-sha512', 'sha256-md5sum', 'mD5sUM-x', 'sha', 'x--y', '-a', 'a-',
+          'X-Build_Id', 'Installed_Size', 'Pre_Depends', 'x_y-z', 'md5sum_x', '_a', 'a_']
 
 
 def control(rng):
@@ -307,7 +308,7 @@ def maint(rng):
     return [rng.choice(names), a] if r < 0.88 else [n, rng.choice(addrs)]
 
 
-R_NAMES = ['Package', 'version', 'DEPENDS', 'x-foo', 'Checksums-Sha256', 'md5sum', 'X-SHA1-sum', 'Description', 'a', 'B2', 'unknown', 'From', 'Installed-Size', 'a-', 'x--y', 'Licence']
+R_NAMES = ['Package', 'version', 'X-Build-Id', 'DEPENDS', 'x-foo', 'Checksums-Sha256', 'md5sum', 'X-SHA1-sum', 'Description', 'a', 'B2', 'unknown', 'From', 'Installed-Size', 'a-', 'x--y', 'Licence']
 R_ODD_NAMES = ['X_Foo', 'a b', '', ':', '-a', '2a', 'a:b', 'From ', '#c', 'a\tb']
 R_FIRST = ['foo', '1.0-1', 'a: b', 'http://x:80/y?z', '.dot', 'From me', 'x  y', '(>= 1.0), b | c', ':', '"q"', '-', 'p\x0cq', '\xe9t\xe9', '#hash', '-----BEGIN PGP SIGNED MESSAGE-----']
 R_CONTS = [' cont', '\tcont', '  two', ' .', ' a: b', ' From x', ' #', ' \xe9', '  -----END PGP SIGNATURE-----']
